@@ -16,6 +16,10 @@ for r in rows:
     print("| %s | %s | %s | %s | %s | %s |" % r)
 print()
 own = [r[0] for r in rows if r[0].split('-')[0] not in [c.strip() for c in r[3].split(',')]]
+other = [r[0] for r in rows if r[0] in own and r[3].strip()]
+none = [r[0] for r in rows if r[0] in own and not r[3].strip()]
 first = sum(1 for r in rows if r[5])
-print("%d seeded changes; %d were missed at first by the check of their property (history in meta.json); %d are reported by the check of the property they were written against%s." % (
-    len(rows), first, len(rows) - len(own), ("; not so: " + ", ".join(own) + " (reported by another property's check, see meta.json)") if own else ""))
+print("%d seeded changes; %d were missed at first by the check of their property and are caught by it after an addition (history in meta.json); %d are reported by the check of the property they were written against%s%s." % (
+    len(rows), first, len(rows) - len(own),
+    ("; reported by another property's check only: " + ", ".join(other)) if other else "",
+    ("; reported by no check: " + ", ".join(none) + " (see meta.json)") if none else ""))
